@@ -78,7 +78,7 @@ def queries(d, n=3):
     if (d, n) not in _Q:
         qs = list(strings(["a", "A", "x", "X", "y", d], n))
         extra = ["z", "z" + d + "1", d + "z", "a" + d + "x1", "x" + d + "a" + d + "x", "a" + d + "x" + d + "1", "x" + d + d + "1",
-                 "xy1", "xyz", "a" + d + "xy", d + "x" + d + "y", "x" + d + "y" + d, " ", "a" + d + " 1", "x" + d + "é", "é"]
+                 "xy1", "xyz", "a" + d + "xy", "a" + d + "b" + d + "1", "a" + d + "b" + d + "y", d + "x" + d + "y", "x" + d + "y" + d, " ", "a" + d + " 1", "x" + d + "é", "é"]
         seen = set(qs)
         for e in extra:
             if e not in seen:
@@ -215,6 +215,9 @@ def units(tier, seed, nchunks=128, hist_depth=None, delim_in_prefix=False, hook=
         out.append({"tier": tier, "cfgs": [recs_to_json(c) for c in small[:40]], "delims": [""], "qlen": 2, "mode": "ctor"})
     if delim_in_prefix:
         out.append({"tier": tier, "cfgs": [recs_to_json(c) for c in dip_configs()], "delims": DELIMS})
+    if hook and (delim_in_prefix or shared_records):
+        # the identifier hook next to CURIE prefixes that contain the delimiter
+        out.append({"tier": tier, "cfgs": [recs_to_json(c) for c in dip_configs()], "delims": [":", "/"], "hook": True})
     if shared_records:
         # states in which the records list and the lookup structures legitimately differ: two converters built from the same
         # Record objects / a shallow copy, one of which learns something later (only for checks whose oracle does not need
